@@ -79,6 +79,8 @@ type QueryJ struct {
 	Start int64  `json:"start"`
 	End   int64  `json:"end"`
 	Step  int64  `json:"step"`
+	// NoInstants: only the range query is compared (the instant form of the expression is in a known-finding class)
+	NoInstants bool `json:"no_instants,omitempty"`
 }
 
 type CaseJ struct {
